@@ -97,7 +97,7 @@ type LocalCachedMap[G any, L any] struct {
 func (lm *LocalCachedMap[G, L]) GetOrCreate(tempKeys []string, onCreating func(permKeys []string)) L {
 	tempMergedKey := lm.keyBuffer
 	for _, tkey := range tempKeys {
-		tempMergedKey = append(tempMergedKey, tkey...)
+		tempMergedKey = util.AppendKeyPart(tempMergedKey, tkey)
 	}
 	lm.keyBuffer = tempMergedKey[:0]
 
